@@ -5,7 +5,7 @@ P=$1; shift
 S=$(mktemp -d /tmp/pv-one-XXXXXX)
 cp -r /repo/pymbolic $S/pymbolic
 (cd $S && patch -p1 -s < "$P") || { echo "patch does not apply"; rm -rf $S; exit 3; }
-for q in ${@:-C01 C02 C03 C04 C05 C06 C07 C08 C09 C10 C11 C12 C13 C14 C15 C16 C17 C19 C20}; do
+for q in ${@:-C01 C02 C03 C04 C05 C06 C07 C08 C09 C10 C11 C12 C13 C14 C15 C16 C17 C18 C19 C20}; do
   (cd /verif && PV_REPO=$S ./check $q --no-evidence 2>&1 | grep -A2 "VIOLATION\|ANALYSIS-ERROR\|Traceback\|Error" | grep -v "^--" | cut -c1-400; PV_REPO=$S ./check $q --no-evidence 2>&1 | tail -1 | cut -c1-80)
 done
 rm -rf $S
